@@ -302,3 +302,55 @@ def arg_through(prog, rep, real, host, i):
     if p in names:
         return arg(rep, names.index(p))
     return None
+
+
+def casefold_rule(ck, prog, rule, tier="quick"):
+    """the library's own case-insensitive comparison (builds without strncasecmp) treats two bytes as equal
+    exactly when they are equal after folding 'A'..'Z' onto 'a'..'z' - decided for every byte pair of the
+    checked rows by evaluating the comparison loop's body over the enumerated byte domain"""
+    from sa import charset as CS
+    from sa import cfg as C
+    f = prog.fn("OUR_strncasecmp")
+    if f is None:
+        return False
+    ck.analysed(f)
+    st = site(f, "byte-equality", 0)
+    loops = C.loops(f)
+    cands = []
+    for b in f.blocks.values():
+        c = b.cond
+        if c is not None and c.k == "BinaryOperator" and c.get("op") in ("!=", "==") and \
+                C.const_of(c.child(0)) is None and C.const_of(c.child(1)) is None:
+            cands.append((b, c))
+    if len(loops) != 1 or len(cands) != 1:
+        ck.anchor_lost(rule, "OUR_strncasecmp: expected one loop and one byte comparison (found %d, %d)" % (len(loops), len(cands)))
+        return True
+    head, body = loops[0]
+    start = head
+    params = [p["name"] for p in f.params]
+    cmpb, cmpn = cands[0]
+    fold = CS.CFUN["tolower"]
+    special = [0, 1, 64, 65, 66, 89, 90, 91, 96, 97, 98, 121, 122, 123, 127, 128, 192, 193, 218, 224, 255]
+    bad = None
+    npairs = 0
+    try:
+        for a in range(256):
+            row = range(256) if tier == "thorough" else sorted(set(special + [a, fold(a), CS.CFUN["toupper"](a), a ^ 32]))
+            for b_ in row:
+                env = {"*" + params[0]: a if a < 128 else a - 256, "*" + params[1]: b_ if b_ < 128 else b_ - 256, params[2]: 5}
+                v = CS.run_to_branch(f, start, env, cmpn, prog)
+                equal = (not v) if cmpn["op"] == "!=" else bool(v)
+                npairs += 1
+                if equal != (fold(a) == fold(b_)):
+                    bad = bad or (a, b_, equal)
+    except CS.CannotEvaluate as ex:
+        ck.undecided(rule, st, loc(f, cmpn), "comparison loop not evaluable: %s" % ex)
+        return True
+    if bad:
+        ck.violated(rule, st, loc(f, cmpn),
+                    "OUR_strncasecmp treats bytes 0x%02x (%r) and 0x%02x (%r) as %s: mnemonics, units and special values "
+                    "containing that letter match (or fail to match) depending on the case they are typed in"
+                    % (bad[0], chr(bad[0]), bad[1], chr(bad[1]), "equal" if bad[2] else "different"))
+    else:
+        ck.holds(rule, st, loc(f, cmpn), "%d byte pairs: equal exactly when equal after A-Z -> a-z" % npairs)
+    return True
